@@ -124,6 +124,12 @@ Definition model_eq (s : state) (o : op) : option bool :=
       | Some x, Some y => Some (loop_eqb (S (S (length (st_heap s)))) (st_heap s) x y)
       | _, _ => None
       end
+  | OEqCopy p _ =>
+      (* the copy's root is the node allocated last *)
+      match resolve (st_heap s) (st_root s) p with
+      | Some x => Some (loop_eqb (S (S (length (st_heap s)))) (st_heap s) x (pred (length (st_heap s))))
+      | None => None
+      end
   | _ => None
   end.
 
@@ -196,6 +202,12 @@ Definition spec_eq (o : op) (ob : sobs) : bool :=
       match sub_at (s_tree ob) a, sub_at (s_tree ob) b, s_eq ob with
       | Some ta, Some tb, Some r => if has_vol ta || has_vol tb then true else Bool.eqb r (struct_eqb ta tb)
       | _, _, _ => false
+      end
+  | OEqCopy p k =>
+      (* a structural copy is equal; a copy that differs in one count / waveform / measurement is not *)
+      match sub_at (s_tree ob) p, s_eq ob with
+      | Some _, Some r => Bool.eqb r (Nat.eqb k 0 || Nat.leb 5 k)
+      | _, _ => false
       end
   | _ => true
   end.
